@@ -25,6 +25,16 @@ def c06_runs(tier, scale):
     return [("c06", [250 * scale, 3, 1, 65536], None), ("c06", [150 * scale, 5, 0, 4096], None)]
 
 
+def c05_runs(tier, scale):
+    th = 1 if tier == "thorough" else 0
+    runs = [("c05", [lim, th], None) for lim in ([4096, 65536, 1 << 20] if tier == "quick" else [4096, 16384, 65536, 1 << 20, 16 << 20])]
+    # the datum decoders on the hostile-bytes streams of C06 under two limits (model correspondence)
+    runs += [("c06", [150 * scale, 3, 1, 4096], None), ("c06", [150 * scale, 4, 0, 65536], None)]
+    if scale > 1:
+        runs = [(s, a, e) for (s, a, e) in runs if s == "c06"] + [("c05", [8192 * (i + 1), 1], None) for i in range(3)]
+    return runs
+
+
 PROPS = {
     "C01": {
         "lean_modules": ["AvroProofs.C01"],
@@ -64,6 +74,28 @@ PROPS = {
                 "of generated (schema, value) pairs, bit flips, byte substitutions, boundary-varint splices, random bytes; "
                 "each through the generic decoder and the schema-aware deserializer; distinct = distinct request lines",
         "trusted_base": DATUM_TB,
+        "assumptions": [],
+    },
+    "C05": {
+        "lean_modules": ["AvroProofs.C05", "AvroProofs.C06"],
+        "theorems": ["Avro.C05.safeLen_iff", "Avro.C05.safeCollectionLen_iff", "Avro.C05.allocBytes_le", "Avro.C05.allocFixed_le",
+                     "Avro.C05.allocArrayBlock_le", "Avro.C05.allocMapBlock_le", "Avro.C05.allocBlockBuf_le", "Avro.C05.blockCount_le",
+                     "Avro.C05.decodeVar_consumes_le_10", "Avro.C06.decode_conforms"],
+        "partial": [
+            {"theorem": "per-site allocation bounds (Avro.C05.alloc*_le)",
+             "excluded_by": "the theorems bound the size REQUESTED at each guarded site of the model; panics, aborts, hangs, what the "
+                            "allocator/hashbrown/compression libraries really request, and the schema-aware deserializer (not yet modelled) are "
+                            "decided by the harness observations only (counting allocator, catch_unwind, watchdog) - labelled partial"},
+        ],
+        "harness": c05_runs,
+        "projection": "okerr",
+        "nontrivial": lambda l: True,
+        "rule": "entry points {datum generic, datum serde, container reader, single-object generic/serde, Codec::decompress x6} x "
+                "hostile declared lengths around the limit (limit-1, limit, limit+1, limit/size_of +-1, 2^31, 2^40, 2^62, i64 extremes, negative "
+                "counts with byte sizes, cumulative blocks), hostile sizes in the (embedded) schema, every truncation and sampled bit flips of a "
+                "reference container file, hostile block headers and codec metadata, compression bombs; one process per allocation limit with a "
+                "counting global allocator (largest single request), catch_unwind, an 8 s watchdog; plus the C06 byte streams for the model correspondence",
+        "trusted_base": DATUM_TB + ["allocations made by C libraries (liblzma, zstd) bypass the counting allocator"],
         "assumptions": [],
     },
 }
